@@ -5,6 +5,8 @@ and the reason why `heuristic_transparent` needs a hypothesis on the text.
 -/
 import WpModel.Model.LineBreak
 import WpModel.Model.InlineRun
+import WpModel.Model.LineVertical
+import WpModel.Model.LineFloats
 
 namespace Wp.Witness.C09
 open Wp Wp.Py Wp.Pango Wp.LB
@@ -93,6 +95,93 @@ theorem inline_box_width_stale :
         match f with
         | .box _ _ _ _ _ kids => kids.map IR.Frag.marginWidth
         | _ => [])))) = some (some [(70, [30])]) := by
+  decide +kernel
+
+/-! ### vertical placement (`Model/LineVertical`) -/
+
+def vst (fs : Rat) (va : LV.VAlign) : LV.VStyle :=
+  { fs := fs, lh := .normal, va := va, bt := 0, pt := 0, pb := 0, bb := 0,
+    textHeight := fs, textBaseline := fs * 4 / 5, ex := 1 / 2 }
+
+mutual
+/-- `position_y` of a box and of all its descendants, in document order -/
+def allYs : LV.VBox → List Rat
+  | .text y _ _ _ _ _ => [y]
+  | .box y _ _ _ _ _ kids => y :: allYsL kids
+def allYsL : List LV.VBox → List Rat
+  | [] => []
+  | k :: ks => allYs k ++ allYsL ks
+end
+
+/-- finding `vertical-align-top-bottom-subtree`:
+`aa <span style="vertical-align:top"><b style="font-size:20px">dd</b></span>` at 10px: the line box is
+`[0, 20]`; of the boxes `aa`, `<span>`, `<b>`, `dd` the last one — 20px high — is at y = −8: the `<b>`
+box was moved with its parent to the top of the line, its text was left behind, above the line box
+and over the previous line. -/
+theorem top_aligned_grandchild_left_behind :
+    (LV.layoutLine (vst 10 .baseline)
+      [.text (vst 10 .baseline), .box (vst 10 .top) [.box (vst 20 .baseline) [.text (vst 20 .baseline)]]] 0).toOption.map
+      (fun l => (l.y, l.height, allYsL l.kids)) = some (0, 20, [0, 8, 0, -8]) := by
+  decide +kernel
+
+/-! ### lines next to floats -/
+
+def floatPara (indent : Rat) : Para :=
+  { st := normalStyle .normal .normal, text := "aa bbb".toList, lineHeight := 10, cbx := 0, width := 40,
+    indent := indent, align := { alignAll := .start, alignLast := none, ws := .normal, rtl := false }, y := 0 }
+
+/-- a right float `[26, 40] × [0, 40]` in a block 40 wide -/
+def rightFloat : List Floats.Shape := [⟨26, 0, 14, 40, .right⟩]
+
+def lineXYW (r : Except PyErr (List OutLine)) : Option (List (Rat × Rat × Rat)) :=
+  r.toOption.map (·.map fun l => (l.x, l.y, l.w))
+
+/-- finding `float-gap-text-indent-later-lines`: `inline_min_content_width` adds the `text-indent` of
+the block to the min-content width of *every* line (`inline_line_widths` reads `style['text_indent']`,
+not `linebox.text_indent`, which `iter_line_boxes` resets to 0 after the first line).  With
+`text-indent: -5px` the second line `bbb` (30 wide) is believed to need 25 and is put at `y = 10` into
+the gap of 26 beside the float: it spans `[0, 30]` and overlaps the float `[26, 40]`. -/
+theorem float_gap_ignores_line_width_with_indent :
+    lineXYW (LF.paragraph rightFloat (floatPara (-5))) = some [(0, 0, 15), (0, 10, 30)] := by
+  decide +kernel
+
+/-- … without `text-indent` the same line is moved below the float (`y = 40`) -/
+theorem float_gap_respected_without_indent :
+    lineXYW (LF.paragraph rightFloat (floatPara 0)) = some [(0, 0, 20), (0, 40, 30)] := by
+  decide +kernel
+
+
+def bandPara : Para :=
+  { st := normalStyle .normal .normal, text := "aaa bbb".toList, lineHeight := 20, cbx := 0, width := 100,
+    indent := 0, align := { alignAll := .right, alignLast := none, ws := .normal, rtl := false }, y := 0 }
+
+def lineXYWH (r : Except PyErr (List OutLine)) : Option (List (Rat × Rat × Rat × Rat)) :=
+  r.toOption.map (·.map fun l => (l.x, l.y, l.w, l.h))
+
+/-- finding `float-align-width-not-of-line-box`: the width `text_align` works in comes from a
+second `avoid_collisions` made with `line.height`, which at that point is the font size (10), not the
+line-height (20).  A right float `[60, 100] × [12.5, 27.5]` that starts in the lower half-leading of
+the first line is seen by the first placement (the text is split in 60) but not by the second: the
+line `aaa` is right-aligned in the whole 100 and its box `[70, 100] × [0, 20]` lies over the float. -/
+theorem float_in_half_leading_ignored_by_alignment :
+    lineXYWH (LF.paragraph [⟨60, 25 / 2, 40, 15, .right⟩] bandPara) = some [(70, 0, 30, 20), (30, 20, 30, 20)] := by
+  decide +kernel
+
+/-- … a float that starts inside the font-size band is respected -/
+theorem float_in_font_size_band_respected :
+    lineXYWH (LF.paragraph [⟨60, 5, 40, 15, .right⟩] bandPara) = some [(30, 0, 30, 20), (70, 20, 30, 20)] := by
+  decide +kernel
+
+/-! ### hypotheses of `Props/C09` that cannot be dropped -/
+
+/-- `max_content_fits_one_line` needs the font size to be a whole number of Pango units (`hk`): with a
+glyph advance of 1/3 px the max-content width 5/3 px of `aa aa` is truncated to 1706 units by
+`int(max_width * 1024)`, less than the 1706⅔ the text needs, and the line breaks.  (Real glyph
+advances are whole Pango units: this is a statement about the model's domain, not a defect.) -/
+theorem max_content_breaks_with_fractional_units :
+    (splitFirstLine { ws := .normal, wb := .normal, ow := .normal, fs := 1 / 3 } "aa aa".toList
+      (.fin (5 / 3)) true false).toOption
+      = some { length := 2, resume := some 3, width := 2 / 3, text := "aa".toList } := by
   decide +kernel
 
 end Wp.Witness.C09
